@@ -8,6 +8,7 @@ import z3
 
 from . import terms as T
 from . import frontend, solve
+from .values import VOpaque, VStr
 from .values import *  # noqa
 from .interp import (Executor, Interp, Env, PyRaise, Unsupported, PathEnd, Infeasible)
 from .world import World
@@ -37,6 +38,7 @@ class FunctionReport:
         self.errors = []
         self.source_hash = None
         self.wall = 0.0
+        self.used = set()
 
     def counts(self):
         n = len(self.obligations)
@@ -206,6 +208,8 @@ def run_path(contract, world, prefix, compare_spec=True, forker=None):
                     if contract.is_init:
                         so, bo = args2[0], self_obj
                         for k, v in so.attrs.items():
+                            if isinstance(v, VOpaque) or (isinstance(v, VStr) and v.s is None):
+                                continue        # names / messages built by str.format are outside the model
                             if k not in bo.attrs:
                                 ex.prove('result.%s is set' % k, False)
                             else:
@@ -251,6 +255,8 @@ def _explore_one(contract, world, prefix, forker=None):
         meta = _plain(g.meta)
         meta['_key'] = g.key
         out.append((g.name, g.text, meta))
+    if ex.used:
+        out.append(('__used__', None, {'used': '\n'.join(sorted(ex.used))}))
     return (status, ex.pending, out, None)
 
 
@@ -293,6 +299,9 @@ def verify_contract(contract, world, path_limit=4000, pool=None):
         if status == 'infeasible':
             rep.infeasible += 1
         for name, text, meta in gl:
+            if name == '__used__':
+                rep.used |= set(meta['used'].split('\n'))
+                continue
             if text is None:
                 key = (name, 'trivial')
                 if key not in seen:
